@@ -500,6 +500,55 @@ func replayRPC(args []string) error {
 		srv.stop()
 		<-srv.done
 	}
+	// values that differ only in the white space inside them, asked one after the other over one grpc:// handle
+	// (and over the file data source): every text means its own value
+	{
+		wd := wsDict()
+		var wrows []vx.Row
+		for v := 1; v <= len(wd.Vals); v++ {
+			for k := 0; k < v; k++ { // value v occurs v times: every count is different
+				wrows = append(wrows, vx.Row{{2, v}, {3, 1 + k%2}})
+			}
+		}
+		wpath, err := buildIndex(wd, dir, "ws.updog", "mem", wrows)
+		if err != nil {
+			return err
+		}
+		var wtexts []string
+		for v := 1; v <= len(wd.Vals); v++ {
+			wtexts = append(wtexts, renderQuery(wd, vx.Query{E: &vx.Expr{Op: "eq", Col: 2, Val: v}}),
+				renderQuery(wd, vx.Query{E: &vx.Expr{Op: "not", E: &vx.Expr{Op: "eq", Col: 2, Val: v}}, GB: []int{3}}))
+		}
+		var wfile []sqlRows
+		if fdb, err := sql.Open("updog", "file:"+wpath); err == nil {
+			for _, text := range wtexts {
+				wfile = append(wfile, safeQuery(fdb, text))
+			}
+			fdb.Close()
+		}
+		if srv, err := startServer(*bin, wpath, true, false); err == nil {
+			if db, err := sql.Open("updog", "grpc://"+srv.addr); err == nil && len(wfile) == len(wtexts) {
+				db.SetMaxOpenConns(1)
+				for round := 0; round < 2; round++ {
+					for qi, text := range wtexts {
+						rep.Steps++
+						got := safeQuery(db, text)
+						if !sameRows(got, wfile[qi]) {
+							rep.Mismatch(map[string]any{"kind": "rpc-grpc-driver-rows", "query": text, "got": got, "want": wfile[qi], "note": "white-space-only variants asked in sequence"})
+						} else if qi%2 == 0 && (len(got.Rows) != 1 || len(got.Rows[0]) != 1 || got.Rows[0][0] != fmt.Sprint(qi/2+1)) {
+							// value number v was added v times: the count is known without any other data source
+							rep.Mismatch(map[string]any{"kind": "rpc-grpc-driver-rows", "query": text, "got": got, "want_count": qi/2 + 1})
+						}
+					}
+				}
+				db.Close()
+			}
+			srv.stop()
+			<-srv.done
+		} else {
+			return err
+		}
+	}
 	// index values that are not valid UTF-8: the library answers, the service must answer alike
 	if *binProbe {
 		bd := vx.NewDict([]string{"a", "b"}, []string{"x", "\xff"})
@@ -667,7 +716,17 @@ func recordRPC(args []string) error {
 			}
 			req.Queries = []*proto.Query{toPBQuery(dict, q, rng, true)}
 		}
-		if i%10 == 9 { // deep nesting
+		if i < 2*len(strangeColumns) {
+			// comparisons against / grouping by columns the index does not have, under names of every shape
+			name := strangeColumns[i/2]
+			eq := &proto.Query_Expression{Value: &proto.Query_Expression_Eq{Eq: &proto.Query_Expression_Equal{Column: name, Value: "x"}}}
+			if i%2 == 0 {
+				req.Queries = []*proto.Query{{Expr: eq}}
+			} else {
+				req.Queries = []*proto.Query{{Expr: toPB(dict, &HExpr{Op: "eq", Col: 1, Val: 1}, rng, true, false), GroupBy: []string{name}}}
+			}
+		}
+		if i%10 == 9 && i >= 2*len(strangeColumns) { // deep nesting
 			e := &proto.Query_Expression{Value: &proto.Query_Expression_Eq{Eq: &proto.Query_Expression_Equal{Column: dict.Col(1), Value: dict.Val(1)}}}
 			for d := 0; d < []int{50, 500, 5000}[rng.Intn(3)]; d++ {
 				e = &proto.Query_Expression{Value: &proto.Query_Expression_Not_{Not: &proto.Query_Expression_Not{Expr: e}}}
@@ -745,6 +804,11 @@ func recordRPC(args []string) error {
 	}
 	return w.Close()
 }
+
+// strangeColumns: names no index of these runs has: near misses of the real ones, multi-byte characters at every position,
+// combining marks, empty, very long
+var strangeColumns = []string{"", "zed", "ZED", "Zedd", "Ze", "aa", "b2", "c-x", "c_y", "gr\u00f6\u00dfe", "l\u00e4nder", "\u00f6s", "na\u00efve", "Ze\u010f",
+	"a\u0301", "b1\u00e9", "\u00e9b1", "\u65e5\u672c\u8a9e", "c_x\u0142z", "\u00e9", "a\u00e9", "\u00e9a", "\U0001f436", "Z\U0001f436d", " a", "a ", "a\x00", strings.Repeat("Zed", 400)}
 
 func depthOf(e *HExpr) int {
 	d := 0
